@@ -19,7 +19,8 @@ EXPLANATION = ("Static abort-site analysis of btor2::parse (rustc HIR facts, cal
                "operand; unwraps on sort data need a dominating kind test; accepted lines are type-checked against the declared sort (R08.5) and inputs/states are created only with a sort from the sort table.")
 ASSUMPTIONS = ["arithmetic overflow of width sums (hi + 1, a_width + b_width) is profile-dependent and only inventoried", "the tokenizer's own slicing is not analysed (Unicode handling not decided)"]
 LEVEL_TEXT = ("Static panic-discipline analysis over all paths of the reader reachable from arbitrary input text: decides where a malformed file can abort the process instead of producing a diagnostic, as a complete inventory "
-              "keyed by call site, and that an accepted line went through the declared-sort check. Known abort sites are listed individually as known findings, so a new one is still reported.")
+              "keyed by call site, and that an accepted line went through the declared-sort check. Every site the inventory reported was repaired in /repo (DESIGN 11.3), so there are no open known findings and a new site is reported."
+              " Same-width preconditions between two operands and overflow of numeric builder parameters parsed from the input are part of the inventory; expressions read back from the reader's own line table count as input.")
 LEVEL_NOTE = "Abort sites are decided per call site; overflow of width arithmetic and the tokenizer are outside the rule set."
 TECHNIQUE = "call-graph reachability + abort-site inventory with allow-list; dominating-guard rule for constant indices (intra- and inter-procedural); precondition-set computation for builders + dominating kind-check rule"
 
